@@ -320,7 +320,11 @@ func init() {
 				}
 			}
 			if fsv := p.structField(*op, ot, "FS"); !isNilPtr(fsv) {
-				if db := p.fsOpenPebble(fsv, dir); db != nil {
+				db, err := p.fsOpenPebble(fsv, dir)
+				if err != nil {
+					return Tuple{(*Value)(nil), err}
+				}
+				if db != nil {
 					return Tuple{p.newPObj("DB", db), Iface{}}
 				}
 			}
@@ -574,4 +578,3 @@ func init() {
 		return Iface{}
 	})
 }
-
